@@ -231,17 +231,20 @@ def r3_builders(r, facts):
 def r4_fixed_file(r, facts):
     f = facts.fn('<fd::AsyncFd as io_uring::op::OpTarget>::set_flags')
     eb = ExprBuilder(f, multi='phi')
-    uf = [(loc, t) for loc, t in f.calls() if (t.get('callee') or '').endswith('use_flags')]
-    if r.require(len(uf) == 1, 'AsyncFd::set_flags', 'set_flags does not call Kind::use_flags', f.where()):
-        e = eb.operand(uf[0][1]['args'][0])
-        r.inst('set_flags = %s.use_flags(..)' % (e,), f.where(uf[0][0]))
-        r.require(e[0] == 'call' and e[1] == 'fd::AsyncFd::kind', 'AsyncFd::set_flags', 'use_flags is not applied to self.kind(): %s' % (e,), f.where(uf[0][0]))
-    g = facts.fn('io_uring::fd::<impl fd::Kind>::use_flags')
-    ws = sqe.collect_writes(g, facts, sub_param=2)
+    # by effect, through whatever helper: the only write of set_flags ORs IOSQE_FIXED_FILE into sqe.flags, on the
+    # Direct arm of a match on self.kind() (Kind::use_flags today; the same written out in set_flags is equivalent)
+    kinds = [(loc, t) for loc, t in f.calls() if (t.get('callee') or '') == 'fd::AsyncFd::kind']
+    made = [loc for loc, s_ in f.assigns() if s_['rv']['k'] == 'agg' and s_['rv'].get('adt') == 'fd::Kind']
+    if r.require(len(kinds) == 1 and not made, 'AsyncFd::set_flags', 'set_flags does not decide on self.kind() (kind() calls: %d, kinds built locally: %d)' % (len(kinds), len(made)), f.where()):
+        e = eb.operand(kinds[0][1]['args'][0])
+        r.inst('set_flags decides on kind(%s)' % (e,), f.where(kinds[0][0]))
+        r.require(e[0] == 'arg' and e[1] == 1, 'AsyncFd::set_flags', 'the kind tested is not that of the descriptor the request is for: %s' % (e,), f.where(kinds[0][0]))
+    ws = sqe.collect_writes(f, facts, sub_param=2)
     fixed = facts.const('io_uring::libc::IOSQE_FIXED_FILE')
-    ok = len(ws) == 1 and ws[0].off == 1 and ws[0].or_const is not None and any(rt[0] == 'const' and rt[1] == fixed for rt in ws[0].roots) and ('fd::Kind', 'Direct') in ws[0].conds
-    r.inst('use_flags: %s' % ws, g.where())
-    r.require(ok, 'Kind::use_flags', 'use_flags does not OR IOSQE_FIXED_FILE into sqe.flags exactly on the Direct arm: %s' % ws, g.where())
+    ok = len(ws) == 1 and ws[0].off == 1 and ws[0].or_const is not None and any(rt[0] == 'const' and rt[1] == fixed for rt in ws[0].roots) \
+        and len(ws[0].conds) == 1 and ws[0].conds[0][1] == 'Direct' and ws[0].conds[0][0].endswith('fd::Kind')
+    r.inst('set_flags: %s' % ws, f.where())
+    r.require(ok, 'Kind::use_flags', 'set_flags does not OR IOSQE_FIXED_FILE into sqe.flags exactly on the Direct arm: %s' % ws, f.where())
     s = facts.fn('<SubmissionQueue as io_uring::op::OpTarget>::set_flags')
     r.require(not sqe.collect_writes(s, facts, sub_param=2), 'SubmissionQueue::set_flags', 'set_flags of a queue target writes to the submission', s.where())
     c = facts.fn(life.SUBMIT_CLOSURE)
